@@ -27,11 +27,14 @@ ASSUMPTIONS = ["re-entering the SAME context object while it is already active i
                "retain mode; the two mixed cases are recorded, not asserted"]
 
 
+IDX = st.sampled_from(list(range(41)))
+
+
 class Boom(Exception):
     pass
 
 
-OPS = ["add", "mul", "tanh", "sum", "relu", "exp", "getitem", "addc"]
+OPS = ["add", "mul", "tanh", "sum", "relu", "exp", "getitem", "addc", "addmm", "addmm", "matmul"]
 
 
 @st.composite
@@ -47,13 +50,14 @@ def block(draw, depth, max_len=6):
             out.append({"k": "leaf", "rg": draw(st.booleans()),
                         "dtype": draw(st.sampled_from(["float32", "float64", "float32", "int32"]))})
         elif k == "op":
-            out.append({"k": "op", "op": draw(st.sampled_from(OPS)), "a": draw(st.integers(0, 40)), "b": draw(st.integers(0, 40))})
+            out.append({"k": "op", "op": draw(st.sampled_from(OPS)), "a": draw(IDX), "b": draw(IDX),
+                        "c": draw(IDX)})
         elif k == "set_rg":
-            out.append({"k": "set_rg", "t": draw(st.integers(0, 40)), "v": draw(st.booleans())})
+            out.append({"k": "set_rg", "t": draw(IDX), "v": draw(st.booleans())})
         elif k == "retain_grad":
-            out.append({"k": "retain_grad", "t": draw(st.integers(0, 40))})
+            out.append({"k": "retain_grad", "t": draw(IDX)})
         elif k == "backward":
-            out.append({"k": "backward", "t": draw(st.integers(0, 40)), "newest": draw(st.booleans())})
+            out.append({"k": "backward", "t": draw(IDX), "newest": draw(st.booleans())})
         elif k == "make_cm":
             out.append({"k": "make_cm", "ctx": draw(st.sampled_from(["no_grad", "retain_grads"])), "slot": draw(st.integers(0, 2))})
         elif k == "with":
@@ -192,7 +196,7 @@ class Interp:
 
     def do_leaf(self, s):
         dt = np.dtype(s["dtype"])
-        data = np.array([1.5, -2.0, 0.5]).astype(dt)
+        data = np.array([[1.5, -2.0], [0.5, 1.0]]).astype(dt)
         is_float = dt.kind == "f"
         want_rg = s["rg"] and self.grad_on
         self.trace.append(f"leaf rg={s['rg']} {s['dtype']}")
@@ -215,8 +219,10 @@ class Interp:
         floats = [i for i, e in enumerate(self.T) if e["float"]]
         if not floats:
             return
-        ia = floats[s["a"] % len(floats)]
-        ib = s["b"] % len(self.T)
+        # raw numbers >= 20 pick one of the three most recent tensors (builds deeper graphs)
+        pick = lambda raw, n: (n - 1 - raw % min(3, n)) if raw >= 20 else raw % n  # noqa: E731
+        ia = floats[pick(s["a"], len(floats))]
+        ib = pick(s["b"], len(self.T))
         a, b = self.T[ia], self.T[ib]
         op = s["op"]
         ta, tb = a["t"], b["t"]
@@ -237,7 +243,19 @@ class Interp:
         elif op == "getitem":
             if ta.ndim == 0:
                 return
-            r = ta[0]
+            r = ta[:, ::-1]
+        elif op in ("addmm", "matmul"):
+            mats = [i for i in floats if self.T[i]["t"].ndim == 2]
+            if len(mats) < 1:
+                return
+            i2 = mats[pick(s["b"], len(mats))]
+            i3 = mats[pick(s.get("c", 0), len(mats))]
+            if op == "addmm":
+                r = sg.addmm(ta, self.T[i2]["t"], self.T[i3]["t"])
+                parents = [ia, i2, i3]
+            else:
+                r = self.T[i2]["t"] @ self.T[i3]["t"]
+                parents = [i2, i3]
         else:
             r = ta + 1.0
         self.trace.append(f"op {op} on {parents}")
@@ -410,11 +428,69 @@ def make_flag_check(op):
     return check
 
 
+# ---- release rule for the result node of EVERY op --------------------------------------------------
+def make_release_check(op):
+    from .. import ops as _ops
+
+    def check(case, rec):
+        env.reset_global_modes()
+        args = case["args"]
+        mode = case["mode"]
+        ts = _ops.leaves(case, rg=case["rg"])
+        rec.nontrivial(mode != "plain" or len(ts) >= 3)
+        rec.tag(mode)
+        ctx = f"op={op.name} args={args} mode={mode}"
+
+        def run():
+            out = op.apply(ts, args)
+            o = _ops.pick(out, case)
+            if not o.requires_grad:
+                return None, None
+            if mode == "retain_grad":
+                o.retain_grad()
+            root = (o * 2.0).sum() if o.ndim else o * 2.0
+            root.backward()
+            return o, root
+        try:
+            if mode == "retain_grads":
+                with sg.retain_grads():
+                    o, root = run()
+            else:
+                o, root = run()
+        except Exception:  # noqa: BLE001
+            rec.skip = "rejected"
+            return
+        if o is None:
+            rec.skip = "no_grad_result"
+            return
+        with contextlib.redirect_stdout(io.StringIO()):
+            kept = o.grad is not None
+            root_kept = root.grad is not None
+            leaves_kept = [t.grad is not None for t, r in zip(ts, case["rg"]) if r]
+        if not root_kept:
+            raise Violation("grad_released", f"the root lost its gradient after backward; {ctx}")
+        if mode == "plain" and kept:
+            raise Violation("grad_kept", f"the op's result (an intermediate, not retained) kept its gradient after backward; {ctx}")
+        if mode != "plain" and not kept:
+            raise Violation("grad_released", f"the op's result was marked/retained ({mode}) but lost its gradient; {ctx}")
+    return check
+
+
+@st.composite
+def release_case(draw, op):
+    from .. import ops as _ops
+    c = draw(_ops.full_case(op))
+    c["mode"] = draw(st.sampled_from(["plain", "plain", "retain_grad", "retain_grads"]))
+    return c
+
+
 @st.composite
 def flag_case(draw, op):
     from .. import ops as _ops
     c = draw(_ops.full_case(op, need_grad=False))
-    c["no_grad"] = draw(st.booleans())
+    n = len(c["rg"])
+    c["rg"] = draw(st.sampled_from([[True] * n, [False] * n, [True] + [False] * (n - 1), [False] * (n - 1) + [True]]))
+    c["no_grad"] = draw(st.sampled_from([True, False]))
     return c
 
 
@@ -425,4 +501,8 @@ def subchecks():
         subs.append(SubCheck("flag_t_" + op.name, make_flag_check(op), (lambda op=op: flag_case(op)), quick=120, thorough=1500))
     for op in nnops.OPS + [nnops.DROPOUT]:
         subs.append(SubCheck("flag_nn_" + op.name, make_flag_check(op), (lambda op=op: flag_case(op)), quick=100, thorough=1000))
+    for op in _ops.OPS:
+        subs.append(SubCheck("release_t_" + op.name, make_release_check(op), (lambda op=op: release_case(op)), quick=60, thorough=800))
+    for op in nnops.OPS:
+        subs.append(SubCheck("release_nn_" + op.name, make_release_check(op), (lambda op=op: release_case(op)), quick=60, thorough=600))
     return subs
